@@ -183,6 +183,10 @@ def check(rep):
     for _ in range(300 if quick else 20000):
         d = tg.bd()
         run("descriptor", lambda x: BondDescriptor(x, 0, d[1], 0), dump_descr, "[" + d[2] + d[3] + d[4] + "]", False)
+    # scalar weights and list entries that need all their digits, very small and very large ones
+    for t in ["[$|0.3333333333333333|]", "[<|0.123456789|]", "[>2|4e-09|]", "[$|1e-12|]", "[$|0.1 0.3333333333333333 1e-12|]", "[<7|12345678.123456789|]",
+              "[$|2.5e-07 7.5e-07|]", "[>|1e+22|]", "[$|0.30000000000000004|]"]:
+        run("descriptor", lambda x: BondDescriptor(x, 0, "", 0), dump_descr, t, False, source="digits")
     for t in ["[$||]", "[<1| |]", "[>|0|]", "[$12|1e1 .5|]", "[$|1_0|]"]:
         run("descriptor", lambda x: BondDescriptor(x, 0, "", 0), dump_descr, t, False, source="probe")
     for _ in range(600 if quick else 40000):
@@ -197,6 +201,8 @@ def check(rep):
     for t in ["{[$]; [$]O [$]}|gauss(10,1)|", "{[$] ; [$]O, [$]N [$]}|gauss(10,1)|", "{[<] [>]}|gauss(10,1)|", "{[]; [$]O, [$]N []}|gauss(10,1)|",
               "C{[$]; [$]O [$]}|uniform(5, 20)|N", "{[>]; [<]F, [>]Cl [<]}|poisson(30)|CC"]:
         run("molecule", gbigsmiles.Molecule, dump_mol, t, False, source="no_repeat_units")
+    for t in ["{[] [$|1e-9|]CC[$|1e-9|], [$|3e-9|]CC(C)[$|3e-9|]; [$][H] []}|gauss(300, 20)|", "C{[$|0.3333333333333333|][$]CC[$|0.6666666666666666|][$]}|uniform(40, 90)|O"]:
+        run("molecule", gbigsmiles.Molecule, dump_mol, t, True, seed=3, source="digits")
     # systems
     import sysrun
     for _ in range(60 if quick else 3000):
